@@ -70,13 +70,14 @@ BINOPS = ["add", "sub", "mul", "lt", "ge", "eq", "ne", "floordiv", "mod"]
 
 
 class Gen:
-    def __init__(self, rng, depth=0, max_depth=2, allow_flags=True, nparams=None, nsites=None, p_sub=0.2, p_param_ret=0.1):
+    def __init__(self, rng, depth=0, max_depth=2, allow_flags=True, nparams=None, nsites=None, p_sub=0.2, p_param_ret=0.1, focus=None):
         self.rng = rng
         self.depth = depth
         self.max_depth = max_depth
         self.allow_flags = allow_flags
         self.p_sub = p_sub
         self.p_param_ret = p_param_ret
+        self.focus = focus        # "flagged-sub": the first call site is a flagged nested DAG that hands a default straight back
         self.nparams = rng.randint(0, 3) if nparams is None else nparams
         self.nsites = rng.randint(1, 6) if nsites is None else nsites
         self.const_no = 100 * (depth + 1)
@@ -142,6 +143,9 @@ class Gen:
         rng = self.rng
         j = len(self.sites) + 1
         site = {"kind": "call", "fn": "mix", "args": [], "kw": [], "active": r_none(), "unpack": 0, "sub": 0, "setup": False}
+        if self.focus == "flagged-sub" and self.depth == 0 and not self.sites:
+            self.add_sub_site(site, j, force=True)
+            return
         if rng.random() < (0.12 if self.depth == 0 else 0.08):
             # a setup call site: constants and results of other setup sites only; computed once per DAG object
             site["setup"] = True
@@ -285,10 +289,10 @@ class Gen:
             self.ints = self.ints[:n_ints]
         self.sites.append(site)
 
-    def add_sub_site(self, site, j):
+    def add_sub_site(self, site, j, force=False):
         rng = self.rng
-        reuse = self.subs and rng.random() < 0.15
-        want_flag = self.allow_flags and rng.random() < 0.25
+        reuse = bool(self.subs) and rng.random() < 0.15 and not force
+        want_flag = (self.allow_flags and rng.random() < 0.25) or force
         if reuse:
             sub_idx = rng.randrange(len(self.subs)) + 1
             Q = self.subs[sub_idx - 1]
@@ -315,14 +319,30 @@ class Gen:
             self.flagged = self.flagged or g.flagged
             self.subs.append(Q)
             sub_idx = len(self.subs)
+        if force:
+            # make sure there is a defaulted last parameter and a return with several positions
+            if not Q["params"] or not Q["params"][-1]["has"]:
+                Q["params"].append({"has": True, "v": encode(rng.choice(INT_VALUES + ["d", (1, 2)]))})
+                Q["ptypes"].append("any")
+            if Q["ret"]["shape"] == "single":
+                Q["ret"]["shape"] = rng.choice(["tuple", "list", "dict"])
         required = sum(1 for p in Q["params"] if not p["has"])
         nargs = rng.randint(required, len(Q["params"]))
+        if want_flag and not reuse and (force or rng.random() < 0.5) and required < len(Q["params"]) and Q["ret"]["shape"] != "single":
+            # a flagged nested DAG that hands a defaulted parameter straight back, and a caller that leaves it out:
+            # deactivated, that output is None like the others - whatever the shape of the return
+            Q["ret"]["refs"].append(r_param(len(Q["params"])))
+            if Q["ret"]["shape"] != "dict" and rng.random() < 0.5:
+                Q["ret"]["shape"] = "dict"
+            if Q["ret"]["shape"] == "dict":
+                Q["ret"]["keys"] = ["k%d" % x for x in range(len(Q["ret"]["refs"]))]
+            nargs = rng.randint(required, len(Q["params"]) - 1)
         args = []
         for p in range(nargs):
             args.append(self.int_ref() if Q["ptypes"][p] == "int" else self.any_ref())
         site.update({"kind": "sub", "fn": "", "args": args, "sub": sub_idx})
         if want_flag:
-            site["active"] = self.any_ref() if rng.random() < 0.7 else r_const(rng.choice(FLAG_VALUES))
+            site["active"] = self.any_ref() if rng.random() < 0.7 else r_const(rng.choice(FLAG_VALUES[:5] if force else FLAG_VALUES))
             self.flagged = True
         shape = Q["ret"]["shape"]
         if shape != "single" and site["active"]["c"] == "none":
